@@ -1,8 +1,12 @@
 (* C19 - Corpus shuffling yields valid corpora and each perturbation is confined.  Proofs in theories/Sampler/CstProofs.v.
-   (partial: the laws of the random primitives are NumPy's; count-based clauses carry an explicit freshness side condition.) *)
-From Coq Require Import List Arith ZArith QArith Bool.
+   (partial: the laws of the random primitives are NumPy's; count-based clauses carry an explicit freshness side condition.)
+   The C19_src_* theorems at the end are re-proved on every run against genprops/CstGen.v, the translation of the tool's arithmetic (amplitude,
+   counts, shifted ends and retry test, removal test, added segment, transition entry, split bounds and pieces, order of the perturbations)
+   from the CURRENT cst.py (harness/gen_cst.py). *)
+From Coq Require Import String List Arith ZArith QArith Qabs Qround Bool Lia.
 From PGA Require Import Sampler.Cst Sampler.CstProofs.
 From PGAgen Require Import ConstGen.
+From PGAprops Require Import CstGen.
 Import ListNotations.
 Local Open Scope Q_scope.
 
@@ -65,3 +69,52 @@ Example C19_example :
   split_one (1#1000) [mkCU 0 10 0] [CRandint 0; CUniform 4] = Some ([mkCU 0 4 0; mkCU 4 10 0], []) /\
   neg_annotator 1 [mkCU 0 10 0; mkCU 20 30 1] [CChoice 1; CRandom (1#2); CRandom (1#3)] = Some ([mkCU 20 30 1], []).
 Proof. vm_compute. split; reflexivity. Qed.
+
+(* ---------------------------------------------------------------------------------------------------------------------------------
+   Tie to the source: the arithmetic of cst.py as written IS what the model applies (shift_draw's candidate ends and acceptance, the removal
+   test, the added segment, the two pieces of a split and the interval its cut is drawn from, the order of the five perturbations), and with
+   magnitude 0 the source's own expressions give amplitude 0, no added unit, no split round, no removal, and the identity transition row -
+   read from the attributes at the time of the call (magnitude is a parameter of every expression, nothing is cached). *)
+Theorem C19_src_shift shift_max u a b st :
+  shift_draw shift_max u (CUniform a :: CUniform b :: st) =
+  (let '(s, e) := shift_ends_src (cs u) (ce u) shift_max a b in
+   if shift_retry_src s e then shift_draw shift_max u st else Some (mkCU s e (cc u), st)).
+Proof.
+  unfold shift_ends_src, shift_retry_src. cbn [shift_draw]. unfold Qltb.
+  destruct (Qle_bool (ce u + b * shift_max) (cs u + a * shift_max)); reflexivity.
+Qed.
+Theorem C19_src_false_neg m x : false_neg_removes_src m x = Qltb x m.
+Proof. reflexivity. Qed.
+Theorem C19_src_false_pos_segment center d : false_pos_segment_src center d = (center - Qabs d / 2, center + Qabs d / 2).
+Proof. reflexivity. Qed.
+Theorem C19_src_split_pieces u cut : split_pieces_src (cs u) (ce u) cut = [(cut, ce u); (cs u, cut)].
+Proof. reflexivity. Qed.
+Theorem C19_src_split_cut_inside s e : s < e -> let '(lo, hi) := split_cut_bounds_src s e in s < lo /\ lo < hi /\ hi == e.
+Proof.
+  intros H. unfold split_cut_bounds_src. cbv zeta. repeat split; try reflexivity.
+  - assert (0 < (e - s) * (5764607523034235 # 576460752303423488)).
+    { apply Qmult_lt_0_compat; [|reflexivity]. unfold Qminus. rewrite <- (Qplus_opp_r s). apply Qplus_lt_l. exact H. }
+    rewrite <- (Qplus_0_r s) at 1. apply Qplus_lt_r. assumption.
+  - assert ((e - s) * (5764607523034235 # 576460752303423488) < (e - s) * 1).
+    { apply Qmult_lt_l; [|reflexivity]. unfold Qminus. rewrite <- (Qplus_opp_r s). apply Qplus_lt_l. exact H. }
+    rewrite Qmult_1_r in H0. apply (Qplus_lt_r _ _ s) in H0. ring_simplify in H0. ring_simplify. exact H0.
+Qed.
+Theorem C19_src_order :
+  corpus_shuffle_order_src = [("shift", "shift_shuffle"); ("false_pos", "false_pos_shuffle"); ("false_neg", "false_neg_shuffle");
+                              ("cat_shuffle", "category_shuffle"); ("split", "splits_shuffle")]%string /\
+  corpus_shuffle_first_src = "continuum = self.corpus_from_reference(annotators)"%string.
+Proof. split; reflexivity. Qed.
+Lemma qtrunc_src_zero x : x == 0 -> qtrunc_src x = 0%Z.
+Proof. intros E. unfold qtrunc_src. destruct (Qle_bool 0 x); [rewrite (Qfloor_comp _ _ E)|rewrite (Qceiling_comp _ _ E)]; reflexivity. Qed.
+(* magnitude 0: no amplitude, no added unit, no split round, no removal, identity transition row *)
+Theorem C19_src_magnitude_zero avg n x eye sec : 0 <= x ->
+  shift_max_src 0 avg == 0 /\ false_pos_count_src 0 n == 0 /\ split_count_src 0 n == 0 /\ false_neg_removes_src 0 x = false /\ cat_prob_src eye sec 0 == eye.
+Proof.
+  intros Hx. unfold shift_max_src, false_pos_count_src, split_count_src, false_neg_removes_src, cat_prob_src.
+  split; [|split; [|split; [|split]]].
+  - ring.
+  - rewrite qtrunc_src_zero by ring. reflexivity.
+  - rewrite qtrunc_src_zero by ring. reflexivity.
+  - unfold Qltb. apply negb_false_iff. apply Qle_bool_iff. exact Hx.
+  - ring.
+Qed.
